@@ -5,7 +5,11 @@ import (
 	"fmt"
 	"os"
 	"path/filepath"
+	"regexp"
+	"runtime"
+	"strings"
 	"testing"
+	"time"
 
 	_ "pgregory.net/rapid"
 	"verif/harness/evid"
@@ -54,4 +58,89 @@ func replayCase(t testing.TB, v any) bool {
 		t.Fatalf("replay: %v", err)
 	}
 	return true
+}
+
+var bubbleGoroutine = regexp.MustCompile(`(?m)^goroutine \d+ \[([^\]]*)\]:`)
+
+// watchDeadlock guards one case that runs in a synctest bubble. Waits on a
+// sync.Mutex are not "durably blocking" for synctest: if a library goroutine
+// waits on one for ever, the fake clock stops, none of the harness's virtual
+// deadlines can fire and the runtime's own deadlock detection stays silent. The
+// watch runs outside the bubble on the real clock: when, 20 s into the case, two
+// dumps taken 3 s apart show every goroutine of the process waiting with
+// identical stacks - nothing running, nothing runnable - no event can ever
+// arrive, so this is a deadlock and not slowness. It is reported as a violation
+// with the dump (the process has to end: the bubble cannot be unwound).
+func watchDeadlock(t testing.TB, id string, desc any) (stop func()) {
+	done := make(chan struct{})
+	go func() {
+		select {
+		case <-done:
+			return
+		case <-time.After(20 * time.Second):
+		}
+		for {
+			a := allStacks()
+			select {
+			case <-done:
+				return
+			case <-time.After(3 * time.Second):
+			}
+			b := allStacks()
+			if stuck(a) && stuck(b) && stripAges(a) == stripAges(b) {
+				if dir := os.Getenv("VERIF_OUT"); dir != "" {
+					shard := os.Getenv("VERIF_SHARD")
+					if shard == "" {
+						shard = "0"
+					}
+					j, _ := json.MarshalIndent(map[string]any{"property": id, "case": desc, "message": "deadlock: every goroutine is blocked for ever (a call on the connection never returns)"}, "", " ")
+					os.WriteFile(filepath.Join(dir, "fail-"+id+"."+shard+".json"), j, 0o644)
+				}
+				fmt.Printf("--- FAIL: %s deadlock: every goroutine of the case is blocked and cannot be woken\ncase: %+v\n%s\n", id, desc, b)
+				evid.FlushAll()
+				os.Exit(1)
+			}
+		}
+	}()
+	return func() { close(done) }
+}
+
+func allStacks() string {
+	buf := make([]byte, 1<<20)
+	for {
+		n := runtime.Stack(buf, true)
+		if n < len(buf) {
+			return string(buf[:n])
+		}
+		buf = make([]byte, 2*len(buf))
+	}
+}
+
+// stuck: no goroutine other than the watcher itself is running or runnable.
+func stuck(dump string) bool {
+	running := 0
+	for _, m := range bubbleGoroutine.FindAllStringSubmatch(dump, -1) {
+		st := m[1]
+		if strings.HasPrefix(st, "running") || strings.HasPrefix(st, "runnable") || strings.HasPrefix(st, "syscall") {
+			running++
+		}
+	}
+	return running <= 1 // the goroutine taking the dump
+}
+
+var (
+	ageRe  = regexp.MustCompile(`, \d+ minutes`)
+	argsRe = regexp.MustCompile(`\(0x[^)]*\)|\+0x[0-9a-f]+|\{0x[^}]*\}`)
+)
+
+// stripAges reduces a dump to who is blocked where (states and function names), without
+// ages, argument values and pc offsets.
+func stripAges(d string) string {
+	var keep []string
+	for _, l := range strings.Split(d, "\n") {
+		if strings.HasPrefix(l, "goroutine ") || (len(l) > 0 && l[0] != '\t' && l[0] != ' ') {
+			keep = append(keep, argsRe.ReplaceAllString(ageRe.ReplaceAllString(l, ""), ""))
+		}
+	}
+	return strings.Join(keep, "\n")
 }
